@@ -28,7 +28,28 @@ type vfC20AuthCase struct {
 	User    []int    `json:"user"`
 	Pass    []int    `json:"pass"`
 	Child   bool     `json:"child"` // run in a child process (the driver may take the process down)
+	// Inter: another connection's handshake - a PasswordAuthenticator with OTHER credentials (User2/Pass2) - answers
+	// its AUTHENTICATE between this connection's Challenge and the moment its AUTH_RESPONSE is built
+	Inter bool  `json:"inter"`
+	User2 []int `json:"user2"`
+	Pass2 []int `json:"pass2"`
 }
+
+// vfC20Interleave forces the schedule "connection B's Challenge runs after connection A's Challenge returned and
+// before A's AUTH_RESPONSE frame is built": A's token is obtained from the driver's PasswordAuthenticator, then
+// B's PasswordAuthenticator (different credentials) answers the same class, then A's token is handed to the
+// handshake.  What the node receives must still be A's token.
+type vfC20Interleave struct{ own, other PasswordAuthenticator }
+
+func (a vfC20Interleave) Challenge(req []byte) ([]byte, Authenticator, error) {
+	tok, next, err := a.own.Challenge(req)
+	if err != nil {
+		return tok, next, err
+	}
+	a.other.Challenge(req)
+	return tok, next, nil
+}
+func (a vfC20Interleave) Success(data []byte) error { return a.own.Success(data) }
 
 func vfC20Bytes(l []int) []byte {
 	b := make([]byte, len(l))
@@ -88,6 +109,9 @@ func vfC20RunAuthCase(c vfC20AuthCase, seed int, log *vfC20EventLog) {
 	via := "authenticator"
 	if c.Kind == "pw" && (c.ID+seed)%2 == 1 {
 		via = "provider"
+	}
+	if c.Kind == "pw" && c.Inter {
+		via = "interleaved"
 	}
 	proto := 4
 	if (c.ID+seed)%5 == 0 {
@@ -163,6 +187,9 @@ func vfC20RunAuthCase(c vfC20AuthCase, seed int, log *vfC20EventLog) {
 		cfg.ReconnectionPolicy = &ConstantReconnectionPolicy{MaxRetries: 2, Interval: time.Millisecond}
 		pa := PasswordAuthenticator{Username: string(user), Password: string(pass), AllowedAuthenticators: c.Allowed}
 		switch {
+		case c.Kind == "pw" && via == "interleaved":
+			cfg.Authenticator = vfC20Interleave{own: pa, other: PasswordAuthenticator{Username: string(vfC20Bytes(c.User2)),
+				Password: string(vfC20Bytes(c.Pass2)), AllowedAuthenticators: c.Allowed}}
 		case c.Kind == "pw" && via == "provider":
 			cfg.AuthProvider = func(h *HostInfo) (Authenticator, error) { return pa, nil }
 		case c.Kind == "pw":
@@ -296,4 +323,73 @@ func TestVfC20AuthChild(t *testing.T) {
 	defer f.Close()
 	vfC20RunAuthCase(c, seed, &vfC20EventLog{f: f})
 	fmt.Println("VFCHILD done")
+}
+
+// TestVfC20Held: unit level, held-and-re-read.  For every ordered pair of different credential sets (A, B):
+// A's token is obtained, B's Challenge runs, then A's token is re-read (what a connection does when it builds its
+// AUTH_RESPONSE after other connections authenticated).  Recorded as connection traces in the vocabulary of
+// spec/Trace_Auth.tla, so the same monitor judges them.
+func TestVfC20Held(t *testing.T) {
+	credsPath, outPath := os.Getenv("VF_C20_CREDS"), os.Getenv("VF_C20_HELD")
+	if credsPath == "" || outPath == "" {
+		t.Skip("VF_C20_CREDS / VF_C20_HELD not set")
+	}
+	type cred struct {
+		User []int `json:"user"`
+		Pass []int `json:"pass"`
+	}
+	var creds []cred
+	in, err := os.Open(credsPath)
+	if err != nil {
+		t.Fatal(err)
+	}
+	sc := bufio.NewScanner(in)
+	sc.Buffer(make([]byte, 1<<20), 1<<20)
+	for sc.Scan() {
+		var c cred
+		if strings.TrimSpace(sc.Text()) == "" {
+			continue
+		}
+		if err := json.Unmarshal([]byte(sc.Text()), &c); err != nil {
+			t.Fatal(err)
+		}
+		creds = append(creds, c)
+	}
+	in.Close()
+	f, err := os.Create(outPath)
+	if err != nil {
+		t.Fatal(err)
+	}
+	defer f.Close()
+	log := &vfC20EventLog{f: f}
+	const class = "org.apache.cassandra.auth.PasswordAuthenticator"
+	id := 0
+	emitConn := func(c cred, tok []byte, how string) {
+		log.Emit(map[string]interface{}{"ev": "case", "id": id, "kind": "pw", "allowed": []string{}, "user": c.User, "pass": c.Pass,
+			"via": how, "proto": 4})
+		log.Emit(map[string]interface{}{"ev": "conn", "id": id, "c": 1})
+		log.Emit(map[string]interface{}{"ev": "srv", "id": id, "c": 1, "what": "authenticate", "class": class})
+		log.Emit(map[string]interface{}{"ev": "cli", "id": id, "c": 1, "op": 15, "token": vfC20Ints(tok), "leak": false})
+		log.Emit(map[string]interface{}{"ev": "srv", "id": id, "c": 1, "what": "success", "class": class})
+		log.Emit(map[string]interface{}{"ev": "result", "id": id, "session": true, "err": "", "crash": false, "query": ""})
+		id++
+	}
+	for i, a := range creds {
+		for j, b := range creds {
+			if i == j {
+				continue
+			}
+			pa := PasswordAuthenticator{Username: string(vfC20Bytes(a.User)), Password: string(vfC20Bytes(a.Pass))}
+			pb := PasswordAuthenticator{Username: string(vfC20Bytes(b.User)), Password: string(vfC20Bytes(b.Pass))}
+			tokA, _, errA := pa.Challenge([]byte(class))
+			tokB, _, errB := pb.Challenge([]byte(class))
+			if errA != nil || errB != nil {
+				t.Fatalf("Challenge refused the default class: %v %v", errA, errB)
+			}
+			// both tokens are looked at AFTER both authenticators ran
+			emitConn(a, tokA, "held-first")
+			emitConn(b, tokB, "held-second")
+		}
+	}
+	fmt.Printf("VFSUMMARY {\"held_tokens\":%d}\n", id)
 }
